@@ -12,6 +12,8 @@ import (
 	"fmt"
 	"math/rand"
 	"os"
+	"strconv"
+	"strings"
 	"sync"
 	"testing"
 	"testing/synctest"
@@ -52,9 +54,14 @@ func gen(seed int64) Scenario {
 			if live[m] {
 				sc.Steps = append(sc.Steps, Step{Op: "poll", M: m, N: 1 + r.Intn(4)})
 			}
-		case x < 10:
+		case x < 9:
 			if live[m] {
 				sc.Steps = append(sc.Steps, Step{Op: "ack", M: m, Kind: []int{1, 1, 2, 3, 4, 4}[r.Intn(6)], Pick: r.Intn(100), N: 1 + r.Intn(3)})
+			}
+		case x < 10 && r.Intn(3) == 0:
+			if live[m] {
+				// a renew, and while it is on its way to the broker (not yet confirmed) the final decision
+				sc.Steps = append(sc.Steps, Step{Op: "renewthen", M: m, Kind: 1 + r.Intn(3), Pick: r.Intn(100), Ms: []int{0, 900, 1800, 2100, 2400, 2700, 3000, 3300, 3600, 4000, 6000}[r.Intn(11)]}, Step{Op: "flush", M: m})
 			}
 		case x < 11:
 			if live[m] {
@@ -105,7 +112,7 @@ func runScenario(t *testing.T, rec *sim.Recorder, sc Scenario) {
 		rec.Ev("reset", "scenario", string(js))
 		var vnet kfake.VirtualNetwork
 		chaos := sim.NewChaos()
-		chaos.Latency = 200 * time.Microsecond
+		chaos.Latency = 2 * time.Millisecond // also the width of the window in which a request is in flight
 		c, err := kfake.NewCluster(kfake.NumBrokers(2), kfake.SeedTopics(2, "s"), kfake.ListenFn(chaos.Listen(vnet.Listen)), kfake.Ports(9092, 9093))
 		if err != nil {
 			t.Fatal(err)
@@ -281,6 +288,23 @@ func runScenario(t *testing.T, rec *sim.Recorder, sc Scenario) {
 				} else {
 					mb.cl.MarkAcks(kgo.AckStatus(st.Kind), rs...)
 				}
+			case "renewthen":
+				mb := members[st.M]
+				if mb == nil || len(mb.held) == 0 {
+					continue
+				}
+				name := fmt.Sprintf("m%d", st.M)
+				r := mb.held[st.Pick%len(mb.held)]
+				type a struct {
+					P int32 `json:"p"`
+					O int64 `json:"o"`
+				}
+				rec.Ev("ack_call", "m", name, "status", 4, "recs", []a{{r.Partition, r.Offset}}, "via", "ack")
+				r.Ack(kgo.AckRenew)
+				go mb.cl.FlushAcks(ctx) // pushes the renew out now; not waited for
+				time.Sleep(time.Duration(st.Ms) * time.Microsecond)
+				rec.Ev("ack_call", "m", name, "status", st.Kind, "recs", []a{{r.Partition, r.Offset}}, "via", "ack")
+				r.Ack(kgo.AckStatus(st.Kind))
 			case "flush":
 				mb := members[st.M]
 				if mb == nil {
@@ -356,9 +380,18 @@ func TestScenarios(t *testing.T) {
 		}
 	} else {
 		n := raw.EnvInt("VERIF_N", 20)
+		from := raw.EnvInt("VERIF_FROM", 0)
 		seed := int64(raw.EnvInt("VERIF_SEED", 1))
-		for i := 0; i < n; i++ {
-			scs = append(scs, gen(seed*100000+int64(i)))
+		skip := map[int]bool{}
+		for _, f := range strings.Split(os.Getenv("VERIF_SKIP"), ",") {
+			if k, err := strconv.Atoi(f); err == nil {
+				skip[k] = true
+			}
+		}
+		for i := from; i < n; i++ {
+			if !skip[i] {
+				scs = append(scs, gen(seed*100000+int64(i)))
+			}
 		}
 	}
 	for i, sc := range scs {
